@@ -50,7 +50,7 @@ func vfC13HeldAfterPage(held map[string]string, page []*ChangeEntry) map[string]
 // ended between that position and the token no longer counts - although its revocation rows may be
 // still to come, because they are issued under the latest trigger of the channel. A held document
 // that sat in a lost channel X only during such an earlier period is not revoked.
-func vfC13ShapeResumeForgetsLoss(m *vfC13Model, held map[string]string, last *ChangeEntry) (sig, detail string) {
+func vfC13ShapeResumeForgetsLoss(m *vfC13Model, held map[string]string, last *ChangeEntry, pullStart uint64) (sig, detail string) {
 	t, s := last.Seq.TriggeredBy, last.Seq.Seq
 	compound := t != 0 && s < t
 	if !compound {
@@ -82,18 +82,25 @@ func vfC13ShapeResumeForgetsLoss(m *vfC13Model, held map[string]string, last *Ch
 				continue
 			}
 			lastEnd := periods[len(periods)-1].End
-			safe := false
+			safe, relevant := false, false
 			for _, p := range periods {
-				if !(p.End > t || (compound && p.End == t && lastEnd == t)) {
-					continue
-				}
+				overlap := false
 				for _, h := range d.Hist[x] {
 					if vfC13SpansOverlap(p, h) {
-						safe = true
+						overlap = true
 					}
 				}
+				if !overlap {
+					continue
+				}
+				if p.End > pullStart {
+					relevant = true // this loss happened since the pull started, its revocation belongs to this pull
+				}
+				if p.End > t || (compound && p.End == t && lastEnd == t) {
+					safe = true
+				}
 			}
-			if !safe {
+			if relevant && !safe {
 				return vfC13SigResumeForgetsLoss, fmt.Sprintf("boundary at %s; %s (entry in %s at %d) was covered only by access periods of %s that ended at or before %d: %v", last.Seq, id, x, entry, x, t, periods)
 			}
 		}
@@ -135,7 +142,7 @@ func (r *vfC13Run) installAvoidance() {
 			return true
 		}
 		held := vfC13HeldAfterPage(r.w.R.Held, page)
-		if sig, _ := vfC13ShapeResumeForgetsLoss(r.w.M, held, last); sig != "" && kit.Known("C13", sig) {
+		if sig, _ := vfC13ShapeResumeForgetsLoss(r.w.M, held, last, r.w.PullStart); sig != "" && kit.Known("C13", sig) {
 			r.rec.Excluded(sig)
 			return true
 		}
@@ -319,6 +326,7 @@ const (
 	vfC13SigRecreatedRole    = "recreated-role-keeps-old-grant-sequence"
 	vfC13SigRoleClip         = "role-reassignment-clips-access-period"
 	vfC13SigRecreatedHistory = "recreated-role-forgets-channel-history"
+	vfC13SigRegainNoHistory  = "lost-and-regained-before-reload-leaves-no-history"
 )
 
 // vfC13ShapeBackfillHides: the replica holds a document the user will not see any more; the
@@ -447,6 +455,50 @@ func vfC13ShapeRoleClip(post *vfC13Model, held map[string]string, pos uint64) (s
 	return "", ""
 }
 
+// vfC13ShapeRegainNoHistory: the user is without channel X now, but lost it more than once since the
+// replica's position, and a held, no longer visible document sat in X only during an access period
+// before the last one. A grant that is lost and present again when the principal is next loaded
+// leaves no history entry (only its stamp moves), so the earlier period is unknown to the revocation
+// feed and the document is not revoked.
+func vfC13ShapeRegainNoHistory(post *vfC13Model, held map[string]string, pos uint64) (sig, detail string) {
+	eff := post.Effective(vfC13Client)
+	for _, id := range vfSortedKeys(held) {
+		if post.Visible(vfC13Client, id) {
+			continue
+		}
+		d := post.Docs[id]
+		if d == nil {
+			continue
+		}
+		for _, x := range vfSortedKeys(d.Hist) {
+			if _, has := eff[x]; has {
+				continue
+			}
+			periods := post.Periods[vfC13Client][x]
+			if len(periods) < 2 {
+				continue
+			}
+			overlaps := func(p vfC13Span) bool {
+				for _, h := range d.Hist[x] {
+					if vfC13SpansOverlap(p, h) {
+						return true
+					}
+				}
+				return false
+			}
+			if overlaps(periods[len(periods)-1]) {
+				continue
+			}
+			for _, p := range periods[:len(periods)-1] {
+				if p.End > pos && overlaps(p) {
+					return vfC13SigRegainNoHistory, fmt.Sprintf("%s sat in %s during %v only, %s was lost again later: %v (position %d)", id, x, p, x, periods, pos)
+				}
+			}
+		}
+	}
+	return "", ""
+}
+
 // vfC13ShapeRecreatedHistory: the operation re-creates a deleted role that is assigned to the user
 // and conferred channel X at or after the replica's position, in a named collection (the channel
 // history of a re-created role is carried over for the default collection only). The revocation of
@@ -533,6 +585,9 @@ func (r *vfC13Run) avoidKnownShapes(o vfC13Op, post *vfC13Model) (drop bool) {
 			sig, _ = vfC13ShapeRoleClip(post, r.w.R.Held, r.w.R.LowPos())
 		}
 		if sig == "" || !kit.Known("C13", sig) {
+			sig, _ = vfC13ShapeRegainNoHistory(post, r.w.R.Held, r.w.R.LowPos())
+		}
+		if sig == "" || !kit.Known("C13", sig) {
 			sig, _ = vfC13ShapeRecreatedHistory(r.w.M, post, o, r.w.R.Held, r.w.R.LowPos(), r.defColl)
 		}
 		if sig == "" || !kit.Known("C13", sig) {
@@ -571,6 +626,7 @@ var vfC13Reproductions = []struct{ Sig, Script string }{
 	{vfC13SigDeletedRole, "open defaultCollection=true; role r1 chans=[C]; user u chans=[] roles=[r1]; put d5 chans=[C]; pull limits=[0]; put d5 chans=[C]; delrole r1; pull limits=[0]"},
 	{vfC13SigRecreatedRole, "open defaultCollection=true; user u chans=[B] roles=[r1]; put d1 chans=[] access([role:r1],[C]); put d5 chans=[C]; put d2 chans=[B]; pull limits=[0]; role r1 chans=[]; pull limits=[0]"},
 	{vfC13SigRoleClip, "open defaultCollection=true; role r2 chans=[B]; user u chans=[] roles=[r2]; put d5 chans=[B]; pull limits=[0]; role r2 chans=[]; put d3 chans=[] role([u],[role:r2]); user u roles=[]; del d5; pull limits=[0]"},
+	{vfC13SigRegainNoHistory, "open defaultCollection=true; user u chans=[A]; put d2 chans=[A]; pull limits=[0]; user u chans=[]; put d2 chans=[] access([u],[A]); user u roles=[r1]; del d2; pull limits=[0]"},
 	{vfC13SigRecreatedHistory, "open defaultCollection=false; role r1 chans=[B]; user u chans=[] roles=[r1]; put d2 chans=[B]; pull limits=[0]; delrole r1; role r1 chans=[]; pull limits=[0]"},
 }
 
